@@ -1,11 +1,13 @@
 """C09 - a transform evaluates its current parameters, grid and conditioning, never a stale snapshot.
 
 Transition system
-    state     live transform `t` (+ at most one inverse `inv`, at most one accessor/link copy `cp`)
-              + reference records kept in lock step (parameters, grid, conditioning, sign, link mode)
-    alphabet  set_data(v1|v2), in-place edit, grid_(g) for a grid menu, condition_(c), reset_parameters,
-              update, clear_buffers, inverse(link=F|T), accessor copies data(p)/grid(g)/condition(c),
-              link, unlink, and the observers call / disp() / disp(g') on each object
+    state     live transform `t`, at most one inverse `inv`, at most one accessor/link copy `cp`, and at most one object
+              `d2` derived from `inv` or `cp` (derivation depth 2: inverse of inverse, copy of inverse, inverse / copy /
+              link of copy) + reference records kept in lock step (parameters, grid, conditioning, sign, link relation)
+    alphabet  set_data(v1|v2), in-place edits (no_grad add_, .data add_/mul_/copy_, SGD step), grid_(g) for a grid menu,
+              condition_(c), reset_parameters, update, clear_buffers, inverse(link=F|T, update_buffers=F|T) and .inv,
+              accessor copies data(p)/grid(g)/condition(c), link, unlink, the derivations of d2, and the observers
+              call / disp() / disp(g') / forward() and "access .inv and evaluate it" on every live object
     search    breadth first over histories, a history is expanded only if the canonical state key
               (structure + exact tensor bits + aliasing of the real objects, plus the reference record)
               is new; every state is rebuilt by replaying its history on fresh objects
@@ -24,24 +26,30 @@ from ref.grid import RefGrid
 
 PROPERTY = "C09"
 RULE = (
-    "every history of the per-class alphabet (state-changing calls, creators of inverse/copies, observers) up to the "
+    "every history of the per-class alphabet (state-changing calls; creators of inverse / copies / linked objects, also "
+    "from derived objects up to derivation depth 2; observers on every live object incl. evaluation of its .inv) up to the "
     "tier depth, breadth first with exact state dedup; every history is executed on fresh real objects; an observer "
     "step is judged against the float64 denotation of the reference record unless the documentation exempts it "
-    "(counted under undefined_by_reference); distinct state = structure + tensor bits + aliasing of the real objects "
-    "+ reference record; non-trivial = judged observation whose expected map moves a probe by > 1e-3 world units"
+    "(counted under undefined_by_reference); distinct state = structure + tensor bits + aliasing + every other "
+    "instance attribute of the real objects + reference record; non-trivial = judged observation whose expected map moves a probe by > 1e-3 world units"
 )
-EXPLANATION = "bounded explicit-state exploration of stateful transform histories against a float64 reference record"
+EXPLANATION = (
+    "bounded explicit-state exploration of histories over a transform and the objects derived from it (inverse, copies, links, "
+    "their inverses/copies, .inv of each) against float64 reference records"
+)
 ASSUMPTIONS = [
     "a freshly evaluated numpy re-implementation of the documented semantics (multilinear interpolation, cubic B-spline "
     "evaluation, scaling and squaring) is the denotation; it agrees with fresh deepali objects to 1e-7 cube units",
     "tolerance 64 ulp(float32) x cube->world scale (about 3e-5 world units; x4 for integrated velocity fields); stale or lost state moves probes by >= 3e-2 world units",
     "disp() after an in-place edit without update(), on an inverse/linked copy before its first update, and of an unlinked "
     "inverse/copy after the original's parameter tensor was replaced are not judged (docs require update() / leave it open)",
+    "an object linked to another one is judged only while the parameters it reads from that object (tensor, refreshed "
+    "prediction, or in-sync buffer p of a linked parent) are the ones the parent denotes; uninitialised buffers never enter a hash",
     "CPU, float32, one transform per batch (N = 1), D = 2 (quick) and D in {2, 3} (thorough)",
 ]
 MIN_NONTRIVIAL = {"quick": 800, "thorough": 3500}
 MIN_OUTCOMES = {"quick": 300, "thorough": 1100}
-MIN_SUB_TRACES = {"call": 200, "disp": 200, "regrid": 50, "create": 100, "mutate": 200}
+MIN_SUB_TRACES = {"call": 200, "disp": 200, "regrid": 50, "create": 100, "mutate": 200, "invcall": 100}
 
 EPS32 = 2.0 ** -23
 TOL_ULPS = 64.0
@@ -293,6 +301,9 @@ def pred_table_cached(fx):
 
 # ---------------------------------------------------------------------------
 # reference records
+SLOTS = ("t", "inv", "cp", "d2")  # original, its inverse, its copy, one object derived from inv or cp (derivation depth 2)
+
+
 class Box:
     """Holder of one parameter tensor value; shared between records whose real objects share the tensor."""
 
@@ -323,9 +334,11 @@ class Rec:
         self.mode = "self"  # self | own | shared | linked | alias | none
         self.since = "init"  # the operation after which disp() of this object is defined
         self.dead = ""  # reason why the object is no longer judged
+        self.parent = "t"  # the object this one was derived from / is linked to
+        self.synced = True  # linked objects: buffer p equals the parameters the parent evaluates now
 
     def describe(self):
-        return (self.cls, self.kind, self.grid, repr(self.cond), self.disp_ok, self.p_fresh, self.mode, self.dead,
+        return (self.cls, self.kind, self.grid, repr(self.cond), self.disp_ok, self.p_fresh, self.mode, self.dead, self.parent, self.synced,
                 None if self.valid is None else np.round(self.valid, 6).tobytes(), round(self.acc, 9), round(self.curv, 9),
                 [(m.name, m.type, m.grid, m.invert, m.pk, None if m.box is None or m.box.a is None else m.box.a.tobytes()) for m in self.mems])
 
@@ -337,12 +350,12 @@ class World:
         self.fx = fx
         cfg = fx.cfg
         self.cls, self.kind = cfg["cls"], cfg["kind"]
-        self.obj = {"t": None, "inv": None, "cp": None}
-        self.rec = {"t": None, "inv": None, "cp": None}
+        self.obj = {w: None for w in SLOTS}
+        self.rec = {w: None for w in SLOTS}
         self.last_mut = "init"
         # whether update() ran on the object since it was created: until then a predicted-parameter buffer `p` may be
         # uninitialised memory (torch.empty in ParametricTransform.__init__ / link_), which must never enter a hash
-        self.upd = {"t": False, "inv": False, "cp": False}
+        self.upd = {w: False for w in SLOTS}
         self.build()
 
     # -- construction ------------------------------------------------------
@@ -407,39 +420,50 @@ class World:
         return o if name == "self" else o[name]
 
     # -- effective members for the denotation -------------------------------
-    def eff(self, who: str):
-        """-> (list of member dicts, RefGrid, Rec) or (None, reason, Rec)"""
+    def data_ok(self, r) -> bool:
+        """Whether data() of the object of record r returns the parameters r denotes now (what an object linked to it reads):
+        tensors always; predicted parameters only after update(); a linked object only while its buffer p is in sync."""
+        if r is None or r.dead or r.mode == "none":
+            return False
+        if r.mode == "linked":
+            return bool(r.synced)
+        return r.kind != "callable" or bool(r.p_fresh)
+
+    def resolve(self, r):
+        """-> ({member name: (parameter array, parameter kind)}, "") or (None, reason)"""
         fx = self.fx
-        r = self.rec[who]
+        if r is None:
+            return None, "absent"
+        if r.dead:
+            return None, "dead:" + r.dead
+        if r.mode == "none":
+            return None, "no-parameters"
+        if r.mode == "linked":
+            P = self.rec.get(r.parent)
+            if P is None:
+                return None, "absent-parent"
+            if P.dead:
+                return None, "dead:" + P.dead
+            if not self.data_ok(P):
+                return None, "linked-to-unrefreshed-prediction" if P.mode != "linked" else "linked-to-unsynchronised-link"
+            return self.resolve(P)
+        if r.kind == "callable":
+            return {m.name: (pred_ref(fx, r.cond, m.name), m.pk) for m in r.mems}, ""
+        return {m.name: (m.box.a, m.pk) for m in r.mems}, ""
+
+    def eff(self, who):
+        """-> (list of member dicts, RefGrid, Rec) or (None, reason, Rec); `who` is a slot name or a record"""
+        fx = self.fx
+        r = self.rec[who] if isinstance(who, str) else who
         if r is None:
             return None, "absent", r
-        if r.dead:
-            return None, "dead:" + r.dead, r
-        if r.mode == "none":
-            return None, "no-parameters", r
-        rt = self.rec["t"]
-        src = r
-        if r.mode in ("linked", "alias"):
-            src = rt
-            if rt.dead:
-                return None, "dead:" + rt.dead, r
-        cond = None
-        if src.kind == "callable":
-            if r.mode == "linked":
-                if not rt.p_fresh:
-                    return None, "linked-to-unrefreshed-prediction", r
-                cond = rt.cond
-            else:
-                cond = r.cond
-        by_name = {m.name: m for m in src.mems}
+        pars, why = self.resolve(r)
+        if pars is None:
+            return None, why, r
         out = []
         for m in r.mems:
-            sm = by_name[m.name]
-            if cond is not None:
-                a = pred_ref(fx, cond, m.name)
-            else:
-                a = sm.box.a
-            d = {"type": m.type, "p": a, "grid": fx.G[m.grid], "invert": m.invert, "pk": sm.pk,
+            a, pk = pars[m.name]
+            d = {"type": m.type, "p": a, "grid": fx.G[m.grid], "invert": m.invert, "pk": pk,
                  "steps": GEN_STEPS if self.cls == "gen" else 5, "stride": fx.stride}
             if m.type not in ts.LINEAR_TYPES:
                 exp_shape = self.data_shape(m.type, m.grid)
@@ -496,6 +520,9 @@ def core_alphabet(cfg):
     A(["call", "cp"])
     A(["call", "t"])
     A(["disp", "t"])
+    if cls in ("svf", "svffd", "lin"):
+        A(["invcall", "t"])
+        A(["invcall", "inv"])
     return ops
 
 
@@ -556,6 +583,21 @@ def alphabet(cfg):
         A(["call", who])
         A(["disp", who])
     A(["dispg", "t"])
+    # derivation depth 2 (slot d2): inverse of the inverse, copy of the inverse, inverse / copy / link of the copy
+    if cls in INVERTIBLE:
+        A(["derive", ["inv", "FF"]])
+        A(["derive", ["inv", "TT"]])
+        A(["derive", ["inv", "cond"]])
+        A(["derive", ["cp", "FF"]])
+    A(["derive", ["cp", "cond"]])
+    if single:
+        A(["derive", ["cp", "link"]])
+    A(["call", "d2"])
+    A(["disp", "d2"])
+    if cls in INVERTIBLE:
+        # `.inv` of every live object, evaluated at once
+        for who in SLOTS:
+            A(["invcall", who])
     if cls in INVERTIBLE:
         # an inverse made with update_buffers=True is documented to be usable without update(): observed right away also
         # through disp(g') and forward() (no pre-forward hook)
@@ -564,12 +606,12 @@ def alphabet(cfg):
     return ops
 
 
-OBSERVERS = ("call", "disp", "dispg", "fwd")
+OBSERVERS = ("call", "disp", "dispg", "fwd", "invcall")
 INVERTIBLE = ("svf", "svffd", "lin", "gen", "seq2")
 # make-inverse forms: link / update_buffers flags ("TF" = link=True, update_buffers=False), "inv" = the .inv property
 INVERSE_FORMS = ("FF", "TF", "FT", "TT", "inv")
 NO_ORACLE_OPS = ("set_data", "edit", "reset", "clear", "update")
-CREATORS = ("inverse", "copy_data", "copy_grid", "copy_cond", "link", "unlink")
+CREATORS = ("inverse", "copy_data", "copy_grid", "copy_cond", "link", "unlink", "derive")
 
 
 def op_form(op):
@@ -580,6 +622,9 @@ def op_form(op):
         return ".inv" if arg == "inv" else f"inverse(link={arg[0]},update_buffers={arg[1]})"
     if name == "edit":
         return "edit" if arg is None else f"edit({arg})"
+    if name == "derive":
+        what = {"FF": "inverse(link=F,update_buffers=F)", "TT": "inverse(link=T,update_buffers=T)", "cond": "condition(c)", "link": "link"}[arg[1]]
+        return f"{what}@{arg[0]}"
     if name in OBSERVERS or name == "update":
         return f"{name}@{arg}"
     return name
@@ -595,6 +640,7 @@ def bounds(tier):
         "depth_core_alphabet": sorted({c["depth"] for c in cf if c["alpha"] == "core"}),
         "core_alphabet_sizes": sorted({len(alphabet(c)) for c in cf if c["alpha"] == "core"}),
         "last_level": "quick: set_data/edit/reset/clear/update are not run as the last step of a maximal history (no oracle beyond 'does not raise'); thorough: all ops at every level" if tier == "quick" else "all ops at every level",
+        "live_objects": "t, inv, cp, d2 (d2 derived from inv or cp: derivation depth 2)",
         "probes_per_call": 6,
         "grid_menu": ["g0", "gA (2n-1, same domain)", "gAx", "gB (other align_corners)", "gC (other size/spacing/centre)", "gD (disp target: current grid resampled to another size)"],
     }
@@ -604,6 +650,11 @@ def bounds(tier):
 # canonical state key of the real objects
 def grid_fp(g):
     return (tensor_bytes(g._size), tensor_bytes(g._center), tensor_bytes(g._spacing), tensor_bytes(g._direction), bool(g._align_corners))
+
+
+_KNOWN_ATTRS = set(torch.nn.Module().__dict__) | {
+    "_grid", "_args", "_kwargs", "_update_hook_handle", "invert", "scale", "steps", "align_corners", "stride", "_resize", "params",
+}
 
 
 def fingerprint(W: World):
@@ -656,20 +707,37 @@ def fingerprint(W: World):
                 out.append(("M:" + k, None))
             else:
                 walk(v, "M:" + k, who)
+        # every other attribute of the object (e.g. a cache somebody adds later) is part of the state as well
+        for k in sorted(d):
+            if k in _KNOWN_ATTRS:
+                continue
+            v = d[k]
+            if isinstance(v, torch.Tensor):
+                out.append(("A:" + k, tens(v)))
+            elif isinstance(v, torch.nn.Module):
+                walk(v, "A:" + k, who)
+            elif v is None or isinstance(v, (bool, int, float, str)):
+                out.append(("A:" + k, repr(v)))
+            elif isinstance(v, (tuple, list)) and all(isinstance(e, (bool, int, float, str)) for e in v):
+                out.append(("A:" + k, repr(v)))
+            elif hasattr(v, "_size") and hasattr(v, "_align_corners"):
+                out.append(("A:" + k, grid_fp(v)))
+            else:
+                out.append(("A:" + k, type(v).__name__, alias(v)))
 
-    for who in ("t", "inv", "cp"):
+    for who in SLOTS:
         o = W.obj[who]
         if o is None:
             out.append((who, None))
         else:
             walk(o, who)
     out.append(("updated", tuple(sorted(W.upd.items()))))
-    recs = tuple(None if W.rec[w] is None else W.rec[w].describe() for w in ("t", "inv", "cp"))
+    recs = tuple(None if W.rec[w] is None else W.rec[w].describe() for w in SLOTS)
     # aliasing of reference boxes
     bids = {}
     balias = tuple(
         None if W.rec[w] is None else tuple(None if m.box is None else bids.setdefault(id(m.box), len(bids)) for m in W.rec[w].mems)
-        for w in ("t", "inv", "cp")
+        for w in SLOTS
     )
     return h64(repr(out), repr(recs), repr(balias))
 
@@ -699,6 +767,17 @@ def enabled(W: World, op):
         return False, "absent"
     if name == "inverse":
         return (W.obj["inv"] is None), "slot-taken"
+    if name == "derive":
+        if W.obj["d2"] is not None:
+            return False, "slot-taken"
+        S = W.rec[arg[0]]
+        if S is None:
+            return False, "absent"
+        if S.mode == "none":
+            return False, "no-parameters"
+        if arg[1] == "link" and cls != "lin" and S.grid != "g0":
+            return False, "linked-shape-would-not-fit"
+        return True, ""
     if name in CREATORS:
         if W.obj["cp"] is not None:
             return False, "slot-taken"
@@ -843,30 +922,58 @@ class Stepper:
 
     def kill_followers(self, reason, keep_linked):
         W = self.W
-        for who in ("inv", "cp"):
+        for who in SLOTS[1:]:
             r = W.rec[who]
             if r is None or r.dead or r.mode in ("own", "none", "self"):
                 continue
-            if r.mode in ("linked", "alias") and keep_linked:
+            if r.mode == "linked" and keep_linked:
                 continue
             if r.kind == "callable" and r.mode == "shared":
                 continue
             r.dead = reason
 
-    def touch_followers(self):
+    def descends(self, who, src):
         W = self.W
-        for who in ("inv", "cp"):
+        seen = 0
+        while who != src and W.rec.get(who) is not None and seen < 4:
+            who = W.rec[who].parent
+            seen += 1
+        return who == src
+
+    def touch_followers(self, src="t", desync=True):
+        """Objects derived from `src` no longer have defined buffers; with desync (the parameters `src` evaluates were
+        replaced, not edited in place) linked ones are also out of sync until their next update()."""
+        W = self.W
+        for who in SLOTS[1:]:
             r = W.rec[who]
-            if r is not None and r.mode in ("shared", "linked", "alias"):
+            if r is None or who == src or not self.descends(who, src):
+                continue
+            if r.mode in ("shared", "linked"):
                 r.disp_ok = False
+            if desync and r.mode == "linked":
+                r.synced = False
 
     def composite_touch(self, who):
         """Composite copies share member modules: evaluating one object refreshes buffers of the others."""
         W = self.W
         if W.cls in ("seq", "seq2", "gen"):
-            for w in ("t", "inv", "cp"):
+            for w in SLOTS:
                 if w != who and W.rec[w] is not None:
                     W.rec[w].disp_ok = False
+
+    def refreshed(self, who):
+        """update() / __call__ ran on `who`: its predicted or linked parameters are current, objects linked to it are not."""
+        W = self.W
+        r = W.rec[who]
+        if r.mode == "linked":
+            r.synced = W.data_ok(W.rec.get(r.parent))
+        else:
+            r.p_fresh = True
+        if who == "t":
+            if W.kind == "callable":
+                self.touch_followers("t")
+        else:
+            self.touch_followers(who)
 
     # -- the ops ---------------------------------------------------------
     def config_of(self, o):
@@ -976,7 +1083,7 @@ class Stepper:
             elif arg == "data.mul_":
                 rt.curv, rt.acc = 0.5 * rt.curv, 0.5 * rt.acc
             rt.disp_ok = False
-            self.touch_followers()
+            self.touch_followers(desync=False)
             self.category = "mutate"
             return
 
@@ -1034,7 +1141,7 @@ class Stepper:
                 rt.valid = ts.hull_box(fx.base, fx.G[rt.mems[0].grid])
                 rt.curv, rt.acc = 0.0, 0.0
                 self.define(rt)
-            self.touch_followers()
+            self.touch_followers(desync=(kind == "callable"))
             self.category = "mutate"
             return
 
@@ -1043,10 +1150,7 @@ class Stepper:
             self.call_impl(op, o.update)
             W.upd[arg] = True
             self.define(r)
-            if arg == "t":
-                rt.p_fresh = True
-                if kind == "callable":
-                    self.touch_followers()  # linked objects read the newly predicted parameters only at their next update
+            self.refreshed(arg)  # linked objects read the newly predicted parameters only at their next update
             self.composite_touch(arg)
             self.category = "mutate"
             return
@@ -1071,6 +1175,8 @@ class Stepper:
                 m.invert = not m.invert
             r = Rec(cls, kind, mems, rt.grid, rt.cond)
             r.mode = "linked" if link else "shared"
+            r.p_fresh = rt.p_fresh
+            r.synced = W.data_ok(rt)
             r.valid, r.acc, r.curv = rt.valid, rt.acc, rt.curv
             r.disp_ok = False
             r.dead = rt.dead
@@ -1168,6 +1274,7 @@ class Stepper:
                 m.invert = False
             r = Rec(cls, kind, mems, "g0", fx.C["c0"])
             r.mode = "linked"
+            r.synced = W.data_ok(rt)
             r.valid, r.acc, r.curv = rt.valid, rt.acc, rt.curv
             r.disp_ok = False
             r.dead = rt.dead
@@ -1185,10 +1292,71 @@ class Stepper:
             self.category = "create"
             return
 
+        if name == "derive":
+            self.derive(op)
+            return
+
         if name in OBSERVERS:
             self.observe(op)
             return
         raise KeyError(name)
+
+    def inverse_mems(self, S):
+        mems = [m.clone(share_box=True) for m in reversed(S.mems)]
+        for m in mems:
+            m.invert = not m.invert
+        return mems
+
+    def derive(self, op):
+        """Derive a further object (slot d2) from the inverse or the copy: inverse of inverse, copy of inverse, inverse / copy /
+        link of copy (derivation depth 2)."""
+        W, fx = self.W, self.W.fx
+        cls, kind = W.cls, W.kind
+        src, form = op[1]
+        so, S = W.obj[src], W.rec[src]
+        inherit = S.mode if S.mode in ("linked", "shared") else "shared"
+        if form in ("FF", "TT"):
+            link = ub = form == "TT"
+            d = self.call_impl(op, so.inverse, link=link, update_buffers=ub)
+            r = Rec(cls, S.kind, self.inverse_mems(S), S.grid, S.cond)
+            if link:
+                r.mode, r.parent, r.synced = "linked", src, W.data_ok(S)
+            else:  # a shallow copy keeps the relation of its source (e.g. stays linked to the source's parent)
+                r.mode, r.parent, r.synced = inherit, S.parent, S.synced
+            r.p_fresh = S.p_fresh
+            defined = ub and S.disp_ok and W.data_ok(S)
+        elif form == "cond":
+            args, kwargs = fx.C["c3" if kind != "callable" else "c2"]
+            d = self.call_impl(op, so.condition, *args, **kwargs)
+            r = Rec(cls, S.kind, [m.clone(share_box=True) for m in S.mems], S.grid, (args, kwargs))
+            r.mode, r.parent, r.synced = inherit, S.parent, S.synced
+            r.p_fresh = False
+            # accessor copy = replacing operation; exempt where the documented update() contract applies first
+            # (predicted parameters: same cause as the known callable findings; linked source: buffer p of the copy)
+            defined = S.kind != "callable" and S.mode != "linked"
+        elif form == "link":
+            kw = {"stride": fx.stride[0]} if cls in ("ffd", "svffd") else {}
+            other = self.call_impl(op, type(so), fx.real("g0"), params=None, **kw)
+            d = self.call_impl(op, other.link, so)
+            mems = [m.clone(share_box=True) for m in S.mems]
+            for m in mems:
+                m.grid, m.invert = "g0", False
+            r = Rec(cls, S.kind, mems, "g0", fx.C["c0"])
+            r.mode, r.parent, r.synced = "linked", src, W.data_ok(S)
+            defined = False
+        else:
+            raise KeyError(form)
+        if not isinstance(d, type(so)):
+            self.bad(op, "type", f"returned {type(d).__name__}")
+            raise Stop()
+        r.valid, r.acc, r.curv = S.valid, S.acc, S.curv
+        r.dead = S.dead
+        r.disp_ok = False
+        W.obj["d2"], W.rec["d2"] = d, r
+        if defined:
+            self.define(r)
+        self.check_receiver(op)
+        self.category = "create"
 
     def check_receiver(self, op):
         """A creator of a copy must leave the receiver holding its own parameters, grid and conditioning."""
@@ -1223,6 +1391,58 @@ class Stepper:
         o = W.obj[who]
         r = W.rec[who]
         acc = self.acc
+        if name == "invcall":
+            # access `.inv` of a live object and evaluate the obtained transform at once: it must be the inverse of what
+            # its owner denotes NOW (the obtained object is linked to the owner and documented as ready to use)
+            tmp = Rec(W.cls, r.kind, self.inverse_mems(r), r.grid, r.cond)
+            tmp.mode, tmp.parent = "linked", who
+            members, rg, _ = W.eff(tmp)
+            frame_grid = fx.G[r.grid]
+            x = torch.tensor(ts.world_to_cube(frame_grid, fx.probes), dtype=torch.float32).unsqueeze(0)
+            if acc is not None:
+                acc.trans(2)
+            st, X = guarded(lambda: o.inv)
+            if st == "raises":
+                if isinstance(X, NotImplementedError):
+                    self.undef("NotImplementedError:" + op_form(op))
+                elif members is not None:
+                    self.bad(op, "raises=" + type(X).__name__, exc_text(X), after=True)
+                raise Stop()
+            if not isinstance(X, type(o)):
+                self.bad(op, "type", f".inv returned {type(X).__name__}", after=True)
+                raise Stop()
+            st, y = guarded(X, x)
+            if members is None:
+                self.undef(f"invcall@{who}:{rg}")
+                if st == "raises":
+                    raise Stop()
+                return
+            if st == "raises":
+                self.bad(op, "raises=" + type(y).__name__, exc_text(y), after=True)
+                raise Stop()
+            if not isinstance(y, torch.Tensor) or tuple(y.shape) != tuple(x.shape):
+                self.bad(op, "shape", f"{who}.inv(x) returned {type(y).__name__} {tuple(getattr(y, 'shape', ()))}", after=True)
+                raise Stop()
+            yw = ts.cube_to_world(frame_grid, _np(y)[0])
+            xw = ts.cube_to_world(frame_grid, x[0].double().numpy())
+            ew = ts.world_map(members, rg, xw)
+            vel = any(m["type"] in ts.VELOCITY_TYPES for m in members)
+            ok = self.inside_hulls(members, xw, 0.0)
+            tol = W.tol_world(frame_grid) * (4 if vel else 1)
+            if acc is not None:
+                acc.outcome(name, W.cls, W.kind, who, np.round(yw, 4).tobytes())
+            if ok.any():
+                err = np.abs(yw - ew)
+                if err[ok].max() > tol:
+                    i = int(np.argmax(err.max(axis=1) * ok))
+                    self.bad(op, "mismatch", f"{who}.inv(x) maps world {np.round(xw[i], 4).tolist()} to {np.round(yw[i], 5).tolist()}, the inverse of what {who} denotes now maps it to {np.round(ew[i], 5).tolist()} (err {err[ok].max():.3e}, tol {tol:.1e})", after=True)
+                    raise Stop()
+                self.category = "invcall"
+                if acc is not None and np.abs(ew - xw)[ok].max() > 1e-3:
+                    acc.nontriv(name, W.cls, W.kind, who, h64(repr(r.describe())), repr(W.rec[r.parent].describe()) if r.mode == "linked" and W.rec.get(r.parent) is not None else "")
+            else:
+                self.undef("invcall:no-probe-in-valid-region")
+            return
         if name in ("call", "fwd"):
             fwd = name == "fwd"
             members, rg, _ = W.eff(who)
@@ -1268,16 +1488,13 @@ class Stepper:
                     self.category = "call"
                     if acc is not None:
                         if np.abs(ew - xw)[ok].max() > 1e-3:
-                            acc.nontriv(name, W.cls, W.kind, who, h64(repr(r.describe())), repr(W.rec["t"].describe()) if r.mode in ("linked", "alias") else "")
+                            acc.nontriv(name, W.cls, W.kind, who, h64(repr(r.describe())), repr(W.rec[r.parent].describe()) if r.mode == "linked" and W.rec.get(r.parent) is not None else "")
                 else:
                     self.undef("call:no-probe-in-valid-region")
             if fwd:
                 return
             self.define(r)
-            if who == "t":
-                r.p_fresh = True
-                if W.kind == "callable":
-                    self.touch_followers()
+            self.refreshed(who)
             self.composite_touch(who)
             return
         # disp / dispg
@@ -1320,7 +1537,7 @@ class Stepper:
             self.category = "disp"
             if acc is not None:
                 if np.abs(ew)[ok].max() > 1e-3:
-                    acc.nontriv(name, W.cls, W.kind, who, h64(repr(r.describe())), repr(W.rec["t"].describe()) if r.mode in ("linked", "alias") else "")
+                    acc.nontriv(name, W.cls, W.kind, who, h64(repr(r.describe())), repr(W.rec[r.parent].describe()) if r.mode == "linked" and W.rec.get(r.parent) is not None else "")
         else:
             self.undef(name + ":no-sample-in-valid-region")
 
